@@ -23,7 +23,7 @@ MANIFEST = {
             "Signature schemes, Merkle roots, the BFT vote module (heights, contradiction) and the aggregate-commit verdict are inputs "
             "(C01/C02/C06/C10/C11 own them). lastBlockReceived and network publication are outside the observables.",
 }
-IMPORTS = "From LE Require Import BFT.ForkChoice Exec.VerifyBlock Exec.Process Corr.C03."
+IMPORTS = "From LE Require Import BFT.Contradiction BFT.ForkChoice Exec.VerifyBlock Exec.Process Corr.C03."
 
 CLASS_RULES = {
     "ok": [0], "static": [1], "txstatic": [2], "txroot": [3], "assets": [4], "assetroot": [5], "version": [6], "payloadsize": [7],
@@ -106,9 +106,10 @@ def impl(it, r):
 
 def pv_term(r):
     it = Intern()
-    return "(mkPV %s %d %s %s %s (mkPE %s %s) %s %s %s)" % (
+    win = "[" + "; ".join("Build_bh %s %d %s %s" % (e[0], it.code("b:" + e[1]), e[2], e[3]) for e in r["ve"].get("window", [])) + "]"
+    return "(mkPV %s %d %s %s %s (mkPE %s %s) %s %s %s %s)" % (
         header(it, r["tip"]), r["fin"], it.n(r["cs"]), it.b(r["app"]), block(it, r["block"]), it.b(r["pe_txroot"]), it.b(r["pe_assetroot"]),
-        venv(it, r["ve"]), xenv(it, r["xe"]), impl(it, r))
+        venv(it, r["ve"]), xenv(it, r["xe"]), impl(it, r), win)
 
 
 def tb_term(r):
@@ -140,11 +141,33 @@ def evaluate(ck, recs):
                 continue
             spec_bad = code >= 2
             if kind == "tb":
-                key = "c03:process:tiebreak-rejected-block-republishes-tip" if spec_bad else "c03:tb:model"
-                what = ("process, tie-break branch: %s: %s" % (
-                    r["alt"], "a rejected competing block changed the observables (events %s, db_same %s)" % (
-                        json.dumps(r["impl"]["events"]), r["impl"]["db_same"]) if spec_bad else
-                    "implementation differs from the model of the tie-break branch"))
+                # bit mask (Corr.C03.check_tb): only the exact event pattern [Delete old tip; New old tip] for an invalid
+                # competitor is the known finding; every other conjunct has its own key
+                bits = [(1, "model", "implementation differs from the model of the tie-break branch (state / events / application root / "
+                            "database-unchanged flag)"),
+                        (2, None, None),
+                        (4, "tip", "wrong tip afterwards (an invalid competitor must leave the old tip, a valid one must become the tip)"),
+                        (8, "db-changed", "an invalid competitor left the database different from before"),
+                        (16, "finalized", "wrong finalized height afterwards"),
+                        (32, "consensus-store", "wrong consensus store afterwards"),
+                        (64, "application", "application root changed or ABI commits/reverts unbalanced"),
+                        (128, "events", "events are neither the expected ones nor exactly [Delete old tip; New old tip]")]
+                obs = "events %s, db_same %s, tip_after %s, fin_after %s, ABI commits/reverts %s/%s" % (
+                    json.dumps(r["impl"]["events"]), r["impl"]["db_same"], r["impl"]["tip_after"][:12], r["impl"]["fin_after"],
+                    r["impl"]["abi_commits"], r["impl"]["abi_reverts"])
+                for bit, name, text in bits:
+                    if not code & bit:
+                        continue
+                    if bit == 2:
+                        key, what, sb = ("c03:process:tiebreak-rejected-block-republishes-tip",
+                                         "process, tie-break branch: %s: Delete+New of the old tip published for a rejected competitor (%s)"
+                                         % (r["alt"], obs), True)
+                    else:
+                        key, what, sb = ("c03:process:tiebreak:%s" % name, "process, tie-break branch: %s: %s (%s)" % (r["alt"], text, obs),
+                                         bit != 1)
+                    ck.failures.append(dict(kind="input", key=key, what=what, case=r, spec_violated=sb, observed=r["impl"],
+                                            theorem_or_correspondence="Corr.C03.check_tb vs consensus.Executer"))
+                continue
             else:
                 accepted = r["impl"]["class"] == "ok"
                 if spec_bad:
@@ -230,6 +253,14 @@ def run(ck):
             ck.discharged += 1
         else:
             ck.fail_obligation("generator:" + name, "the scenario generator did not produce " + name)
+    tbs = [r for r in recs if r["k"] == "tb"]
+    ck.extra["tie_break_cases"] = {a: sum(1 for r in tbs if r["alt"] == a) for a in sorted(set(r["alt"] for r in tbs))}
+    ck.obligations += 1
+    if any("valid competing" in r["alt"] for r in tbs) and sum(1 for r in tbs if "valid competing" not in r["alt"]) >= 2:
+        ck.discharged += 1
+    else:
+        ck.fail_obligation("generator:tie-break", "the run must contain tie-break cases through Executer.process with a valid and with "
+                           "at least two invalid competitors; found %s" % ck.extra["tie_break_cases"])
     ck.assume += ["Ed25519/BLS verification, Merkle roots, liskbft heights/contradiction verdict and verifyAggregateCommit are inputs "
                   "of the model, computed by the harness from the same libraries outside the code path under test",
                   "the wall clock stays in one slot during a case (cases where it does not are re-run)"]
